@@ -58,6 +58,25 @@ func injections(bad sgen.M, kind string) []injection {
 		{"anyOf-branch", root(sgen.M{"anyOf": []any{obj(sgen.M{"type": "string"}), sgen.M{"type": "object", "properties": sgen.M{"z": b()}}}}, nil)},
 		{"additionalProperties-of-map", root(sgen.M{"type": "object", "additionalProperties": b()}, nil)},
 	}
+	if kind == "empty-enum" {
+		// the element next to a valid twin that asks for the same Go type name and is generated first
+		// ("a-b" sorts before "a_b", both become AB): the name-collision shortcut compares the two nodes
+		with := func(base sgen.M) sgen.M {
+			o := sgen.DeepCopy(base).(sgen.M)
+			for k, v := range b() {
+				o[k] = v
+			}
+			return o
+		}
+		strT := sgen.M{"type": "string"}
+		objT := obj(sgen.M{"type": "string"})
+		out = append(out,
+			injection{"definition-twin-of-earlier-definition", root(sgen.M{"type": "string"}, sgen.M{"a-b": sgen.DeepCopy(strT), "a_b": with(strT)})},
+			injection{"definition-twin-of-earlier-definition-object", root(sgen.M{"$ref": "#/$defs/a_b"}, sgen.M{"a-b": sgen.DeepCopy(objT), "a_b": with(objT)})},
+			injection{"property-twin-of-earlier-sibling", sgen.M{"$id": "urn:c18", "type": "object", "properties": sgen.M{"a-b": sgen.DeepCopy(objT), "a_b": with(objT)}}},
+			injection{"property-twin-of-definition", sgen.M{"$id": "urn:c18", "type": "object", "properties": sgen.M{"p": with(objT)}, "$defs": sgen.M{"SJsonP": sgen.DeepCopy(objT)}}},
+		)
+	}
 	if kind == "missing-definition" || kind == "missing-file" || kind == "bad-pointer" {
 		out = append(out, injection{"allOf-branch-ref", root(sgen.M{"allOf": []any{b(), obj(sgen.M{"type": "string"})}}, nil)},
 			injection{"anyOf-branch-ref", root(sgen.M{"anyOf": []any{obj(sgen.M{"type": "string"}), b()}}, nil)})
@@ -72,7 +91,7 @@ func goParses(src string) bool {
 
 func init() {
 	register("C18", func(c *engine.Ctx) {
-		c.Rule = "the CLI binary built from /repo, run in an empty sandbox directory: (1) valid schemas with one ungeneratable element (unknown type, missing definition, missing file, bad pointer, empty enum, non-primitive enum) injected at every kind of position (property, nested, array item, definition, unreferenced definition, allOf/anyOf branch, branch given by $ref, additionalProperties) x output to stdout or to a file; (2) malformed file contents (truncated, wrongly typed keywords, null in every position, YAML junk, empty, binary); (3) missing files, directories, malformed and unknown flags, no arguments, no package. Judged: exit 0 with complete parsable output, or non-zero exit with a diagnostic on stderr, nothing on stdout, no file created or modified; an ungeneratable element always fails the run; never a panic trace or a hang. In-process: mutated schemas through DoFile/Sources under recover() with a timeout. Distinct = distinct (case kind, position, output mode, outcome)."
+		c.Rule = "the CLI binary built from /repo, run in an empty sandbox directory: (1) valid schemas with one ungeneratable element (unknown type, missing definition, missing file, bad pointer, empty enum, non-primitive enum) injected at every kind of position (property, nested, array item, definition, unreferenced definition, allOf/anyOf branch, branch given by $ref, additionalProperties, and — for enum faults — next to a valid twin that owns the same Go type name and is generated first: definition/definition, property/sibling, property/definition) x output to stdout or to a file; (2) malformed file contents (truncated, wrongly typed keywords, null in every position, YAML junk, empty, binary); (3) missing files, directories, malformed and unknown flags, no arguments, no package. Judged: exit 0 with complete parsable output, or non-zero exit with a diagnostic on stderr, nothing on stdout, no file created or modified; an ungeneratable element always fails the run; never a panic trace or a hang. In-process: mutated schemas through DoFile/Sources under recover() with a timeout. Distinct = distinct (case kind, position, output mode, outcome)."
 		c.Proofs([]string{"GJS.Props.C18"}, []string{
 			"GJS.Props.C18.cli_generation_error_writes_nothing", "GJS.Props.C18.cli_flag_error_writes_nothing", "GJS.Props.C18.cli_success_writes_all",
 			"GJS.Props.C18.flag_without_equals_rejected", "GJS.Props.C18.flag_with_equals_accepted", "GJS.Props.C18.unknown_type_fails",
